@@ -36,9 +36,15 @@ VARIABLES l,        \* next line of TraceLog
           upl,      \* id -> progress of pending uploads / frozen opens
           expired,  \* the maximum writable-file upload delay has fired
           made,     \* [Files -> BOOLEAN] the file has been created
-          snap      \* per file, at the last quiescent point: closes and references
+          snap,     \* per file, at the last quiescent point: closes and references
+          want,     \* [Files -> Seq(Int)] the contents the CALLERS gave the file (create size,
+                    \* writes, truncations, allocations, O_TRUNC), accumulated from the
+                    \* arguments of the calls - not from what the pool file was told
+          amb       \* [Files -> record] calls that change the contents overlapped (parked
+                    \* behind a frozen view and resumed together): their order is not known;
+                    \* the group is judged when its last member returns (any order allowed)
 
-tvars == <<l, verdict, nonconf, links, descr, readers, content, pend, upl, expired, made, snap>>
+tvars == <<l, verdict, nonconf, links, descr, readers, content, pend, upl, expired, made, snap, want, amb>>
 
 Line == TraceLog[l]
 IsEvent(e) == l <= Len(TraceLog) /\ Line.ev = e /\ l' = l + 1
@@ -95,7 +101,54 @@ SnapOf(md, lk, ds, rd, up) ==
                     definite |-> ~md[f] \/ RefsDefinite(f, lk, ds, rd, up),
                     possible |-> ~md[f] \/ RefsPossible(f, lk, ds, rd, up)]]
 
+-----------------------------------------------------------------------------
+(* The contents a file must have, from the callers' point of view.  The    *)
+(* pool file below the real code only says what the real code did to it;   *)
+(* what a file "keeps" is what was put into it through the calls.          *)
+
+Zeros(n) == [i \in 1 .. n |-> 0]
+Resize(w, n) == [i \in 1 .. n |-> IF i <= Len(w) THEN w[i] ELSE 0]
+Overlay(w, off, d) ==
+  IF d = <<>> THEN w
+  ELSE [i \in 1 .. (IF Len(w) > off + Len(d) THEN Len(w) ELSE off + Len(d)) |->
+          IF i > off /\ i <= off + Len(d) THEN d[i - off]
+          ELSE IF i <= Len(w) THEN w[i] ELSE 0]
+
+\* calls that change contents
+IsMut(c) == c.op \in {"write", "setsize", "allocate"} \/ (c.op = "open" /\ c.trunc)
+PendingMut(pd, f) == {i \in DOMAIN pd : pd[i].f = f /\ IsMut(pd[i])}
+
+\* the contents after call c (arguments) returned OK with reply r, from w.
+\* A set: an allocation of zero bytes beyond the end may or may not grow
+\* the file (the statement does not say).
+AfterMut(c, r, w) ==
+  IF c.op = "write" THEN {Overlay(w, c.off, SubSeq(c.data, 1, Min(r.n, Len(c.data))))}
+  ELSE IF c.op = "setsize" THEN {Resize(w, c.n)}
+  ELSE IF c.op = "allocate"
+       THEN (IF Len(w) < c.off + c.n THEN {Resize(w, c.off + c.n)} ELSE {w})
+            \cup (IF c.n = 0 THEN {w} ELSE {})
+  ELSE {<<>>}        \* open with O_TRUNC
+
+\* Overlapping content-changing calls: [on, ops (those that returned OK, as
+\* [c, r]), bad (one failed half-way: the group is not judged)].
+NoGroup == [on |-> FALSE, ops |-> <<>>, bad |-> FALSE]
+MaxGroup == 4
+\* every contents that applying all of ops, in some order, can give
+RECURSIVE PermRes(_, _, _)
+PermRes(ops, W, S) ==
+  IF S = {} THEN W
+  ELSE UNION {PermRes(ops, UNION {AfterMut(ops[i].c, ops[i].r, w) : w \in W}, S \ {i}) : i \in S}
+
+\* Contents of f at a point where no content-changing call on f is in
+\* progress: what the pool file holds is what the callers put there.
+ContentReason(md, pd, wt, am) ==
+  IF \E f \in Files : /\ md[f] /\ Cl(f) = 0 /\ ~am[f].on /\ PendingMut(pd, f) = {}
+                       /\ content[f] # wt[f]
+  THEN "C16:file-contents-differ-from-what-was-written" ELSE ""
+
 InitVals ==
+  /\ want = [f \in Files |-> <<>>]
+  /\ amb = [f \in Files |-> NoGroup]
   /\ links = [f \in Files |-> 0]
   /\ descr = [f \in Files |-> NoDescr]
   /\ readers = [f \in Files |-> 0]
@@ -119,6 +172,8 @@ TReset ==
   /\ expired' = FALSE
   /\ made' = [f \in Files |-> FALSE]
   /\ snap' = [f \in Files |-> [closed |-> 0, definite |-> TRUE, possible |-> TRUE]]
+  /\ want' = [f \in Files |-> <<>>]
+  /\ amb' = [f \in Files |-> NoGroup]
   /\ verdict' = "ok"
   /\ UNCHANGED nonconf
 
@@ -128,7 +183,7 @@ TCall ==
   /\ pend' = FnPut(pend, Line.id, Line)
   /\ upl' = IF Line.op \in {"upload", "fopen"} THEN FnPut(upl, Line.id, NewUpl(Line.f, Line.op)) ELSE upl
   /\ verdict' = "ok"
-  /\ UNCHANGED <<nonconf, links, descr, readers, content, expired, made, snap>>
+  /\ UNCHANGED <<nonconf, links, descr, readers, content, expired, made, snap, want, amb>>
 
 \* Status rules shared by the calls that can meet a released file.
 \*   ok on a released file                     -> violation
@@ -142,7 +197,7 @@ TRet ==
   /\ IsEvent("ret")
   /\ IF Line.id \notin DOMAIN pend
      THEN /\ verdict' = "NC:return-without-call"
-          /\ UNCHANGED <<links, descr, readers, pend, upl, made>>
+          /\ UNCHANGED <<links, descr, readers, pend, upl, made, want, amb>>
      ELSE
        LET c == pend[Line.id]
            f == c.f
@@ -163,6 +218,24 @@ TRet ==
                   ELSE readers
            up2 == IF Line.id \in DOMAIN upl THEN FnDel(upl, Line.id) ELSE upl
            md2 == IF op = "create" /\ st = "OK" THEN [made EXCEPT ![f] = TRUE] ELSE made
+           pd2 == FnDel(pend, Line.id)
+           \* the callers' view of the contents
+           others == PendingMut(pd2, f)
+           gops == IF st = "OK" THEN Append(amb[f].ops, [c |-> c, r |-> Line]) ELSE amb[f].ops
+           gbad == amb[f].bad \/ st \notin ({"OK"} \cup StaleReplies)
+           exp == IF amb[f].on THEN PermRes(gops, {want[f]}, 1 .. Len(gops))    \* last of an overlapping group
+                  ELSE AfterMut(c, Line, want[f])
+           wt2 == IF op = "create" THEN [want EXCEPT ![f] = Zeros(c.n)]
+                  ELSE IF ~IsMut(c) \/ others # {} THEN want
+                  ELSE IF (amb[f].on /\ (gbad \/ Len(gops) > MaxGroup)) THEN [want EXCEPT ![f] = content[f]]   \* not judged
+                  ELSE IF st = "OK" \/ amb[f].on
+                       THEN [want EXCEPT ![f] = IF content[f] \in exp THEN content[f] ELSE CHOOSE x \in exp : TRUE]
+                  ELSE IF st \in StaleReplies THEN want
+                  ELSE [want EXCEPT ![f] = content[f]]                      \* failed half-way (I/O error): not judged
+           am2 == IF op = "create" THEN [amb EXCEPT ![f] = NoGroup]
+                  ELSE IF ~IsMut(c) THEN amb
+                  ELSE IF others # {} THEN [amb EXCEPT ![f] = [on |-> TRUE, ops |-> gops, bad |-> gbad]]
+                  ELSE [amb EXCEPT ![f] = NoGroup]
            u == upl[Line.id]      \* only evaluated for upload / fopen
            reason ==
              CASE op = "create" -> IF st = "OK" THEN "" ELSE "NC:create-failed"
@@ -188,6 +261,7 @@ TRet ==
                     IF st = "OK" THEN
                       IF Cl(f) >= 1 /\ u.phase = "pre" THEN "C16:upload-succeeded-on-released-file"
                       ELSE IF ~u.putdone \/ u.fail THEN "C16:digest-reported-without-bytes-in-cas"
+                      ELSE IF ~Line.dfok THEN "C16:digest-of-another-digest-function-reported"
                       ELSE IF ~(Line.hash = u.cashash /\ Line.dsize = Len(u.got) /\ Line.hash = u.hash)
                            THEN "C16:reported-digest-differs-from-cas-bytes"
                       ELSE ""
@@ -202,14 +276,16 @@ TRet ==
                     THEN "C16:frozen-read-returned-wrong-contents" ELSE ""
                [] op = "fclose" -> IF readers[f] > 0 THEN "" ELSE "NC:fclose-without-reader"
                [] op = "stat" ->
-                    IF st = "OK" /\ Line.hasdigest
+                    IF st = "OK" /\ Line.hasdigest /\ ~Line.dfok
+                    THEN "C16:digest-of-another-digest-function-reported"
+                    ELSE IF st = "OK" /\ Line.hasdigest
                        /\ ~(Line.known /\ Line.pre = content[f] /\ Line.dsize = Len(content[f]))
                     THEN "C16:stale-digest-reported"
                     ELSE StaleReason("stat", f, st, live)
                [] OTHER -> ""
        IN /\ links' = lk2 /\ descr' = ds2 /\ readers' = rd2 /\ upl' = up2 /\ made' = md2
-          /\ pend' = FnDel(pend, Line.id)
-          /\ verdict' = Pick(<<reason, CloseCheck(md2, lk2, ds2, rd2, up2)>>)
+          /\ pend' = pd2 /\ want' = wt2 /\ amb' = am2
+          /\ verdict' = Pick(<<reason, CloseCheck(md2, lk2, ds2, rd2, up2), ContentReason(md2, pd2, wt2, am2)>>)
   /\ UNCHANGED <<nonconf, content, expired, snap>>
 
 -----------------------------------------------------------------------------
@@ -225,12 +301,12 @@ TPutBegin ==
                IF Cl(u.f) >= 1 THEN "C16:upload-proceeded-on-released-file"
                ELSE IF UploadMayWait(WritersMin(u.f), expired) THEN "C16:upload-did-not-wait-for-writers"
                ELSE "ok"
-  /\ UNCHANGED <<nonconf, links, descr, readers, content, pend, expired, made, snap>>
+  /\ UNCHANGED <<nonconf, links, descr, readers, content, pend, expired, made, snap, want, amb>>
 
 TPutHalf ==
   /\ IsEvent("put_half")
   /\ verdict' = "ok"
-  /\ UNCHANGED <<nonconf, links, descr, readers, content, pend, upl, expired, made, snap>>
+  /\ UNCHANGED <<nonconf, links, descr, readers, content, pend, upl, expired, made, snap, want, amb>>
 
 TPutEnd ==
   /\ IsEvent("put_end")
@@ -244,7 +320,7 @@ TPutEnd ==
                ELSE IF Line.data \notin u.seen THEN "C16:cas-bytes-never-were-file-contents"
                ELSE IF ~(u.hash = Line.cashash /\ u.dsize = Len(Line.data)) THEN "C16:put-digest-differs-from-cas-bytes"
                ELSE "ok"
-  /\ UNCHANGED <<nonconf, links, descr, readers, content, pend, expired, made, snap>>
+  /\ UNCHANGED <<nonconf, links, descr, readers, content, pend, expired, made, snap, want, amb>>
 
 TPutClosed ==
   /\ IsEvent("put_closed")
@@ -253,7 +329,7 @@ TPutClosed ==
      ELSE LET up2 == [upl EXCEPT ![Line.id].phase = "closed"] IN
           /\ upl' = up2
           /\ verdict' = Pick(<<CloseCheck(made, links, descr, readers, up2)>>)
-  /\ UNCHANGED <<nonconf, links, descr, readers, content, pend, expired, made, snap>>
+  /\ UNCHANGED <<nonconf, links, descr, readers, content, pend, expired, made, snap, want, amb>>
 
 -----------------------------------------------------------------------------
 (* The instrumented pool file.                                             *)
@@ -265,17 +341,17 @@ TPoolData ==
                IF upl[i].f = Line.f /\ upl[i].phase \in {"pre", "put"}
                THEN [upl[i] EXCEPT !.seen = @ \cup {Line.after}] ELSE upl[i]]
   /\ verdict' = "ok"
-  /\ UNCHANGED <<nonconf, links, descr, readers, pend, expired, made, snap>>
+  /\ UNCHANGED <<nonconf, links, descr, readers, pend, expired, made, snap, want, amb>>
 
 TPoolClose ==
   /\ IsEvent("pool_close")
   /\ verdict' = IF Cl(Line.f) > 1 THEN "C16:backing-file-closed-twice" ELSE "ok"
-  /\ UNCHANGED <<nonconf, links, descr, readers, content, pend, upl, expired, made, snap>>
+  /\ UNCHANGED <<nonconf, links, descr, readers, content, pend, upl, expired, made, snap, want, amb>>
 
 TPoolUseAfterClose ==
   /\ IsEvent("pool_uac")
   /\ verdict' = "C16:released-storage-touched"
-  /\ UNCHANGED <<nonconf, links, descr, readers, content, pend, upl, expired, made, snap>>
+  /\ UNCHANGED <<nonconf, links, descr, readers, content, pend, upl, expired, made, snap, want, amb>>
 
 -----------------------------------------------------------------------------
 (* Harness events.                                                         *)
@@ -284,12 +360,12 @@ TDelayFire ==
   /\ IsEvent("delay_fire")
   /\ expired' = TRUE
   /\ verdict' = "ok"
-  /\ UNCHANGED <<nonconf, links, descr, readers, content, pend, upl, made, snap>>
+  /\ UNCHANGED <<nonconf, links, descr, readers, content, pend, upl, made, snap, want, amb>>
 
 TNote ==
   /\ l <= Len(TraceLog) /\ Line.ev \in {"release", "fault", "end"} /\ l' = l + 1
   /\ verdict' = "ok"
-  /\ UNCHANGED <<nonconf, links, descr, readers, content, pend, upl, expired, made, snap>>
+  /\ UNCHANGED <<nonconf, links, descr, readers, content, pend, upl, expired, made, snap, want, amb>>
 
 DataOps == Mutators \cup {"read"}
 
@@ -301,7 +377,7 @@ TPanic ==
                 ELSE "C16:real-code-panicked"
   /\ pend' = IF Line.id \in DOMAIN pend THEN FnDel(pend, Line.id) ELSE pend
   /\ upl' = IF Line.id \in DOMAIN upl THEN FnDel(upl, Line.id) ELSE upl
-  /\ UNCHANGED <<nonconf, links, descr, readers, content, expired, made, snap>>
+  /\ UNCHANGED <<nonconf, links, descr, readers, content, expired, made, snap, want, amb>>
 
 \* After the driver gave up every reference, expired the delay and opened
 \* every gate, this call still has not returned.
@@ -310,7 +386,7 @@ TStuck ==
   /\ verdict' = IF Line.op \in {"upload", "fopen"} THEN "C16:upload-never-completed"
                 ELSE IF Line.op \in Mutators \cup {"open"} THEN "C16:writer-never-resumed"
                 ELSE "NC:operation-stuck"
-  /\ UNCHANGED <<nonconf, links, descr, readers, content, pend, upl, expired, made, snap>>
+  /\ UNCHANGED <<nonconf, links, descr, readers, content, pend, upl, expired, made, snap, want, amb>>
 
 \* The driver's watchdog: a step never became quiescent (a call spins or
 \* blocks on a lock inside the real code) and the run was abandoned.  If a
@@ -327,7 +403,7 @@ THang ==
             /\ ~WriterMayWait(FrozenNow(readers, upl, pend[i].f))
        THEN "C16:writer-never-resumed"
        ELSE "NC:step-did-not-become-quiescent"
-  /\ UNCHANGED <<nonconf, links, descr, readers, content, pend, upl, expired, made, snap>>
+  /\ UNCHANGED <<nonconf, links, descr, readers, content, pend, upl, expired, made, snap, want, amb>>
 
 \* Is a call that is parked at a quiescent point allowed to be parked?
 BlockReason(p) ==
@@ -358,12 +434,13 @@ TQuiesce ==
          blocked == [i \in 1 .. Len(ps) |-> BlockReason(ps[i])]
          linkbad == \E i \in 1 .. Len(hs) : hs[i].found /\ ~hs[i].locked /\ hs[i].links # links[hs[i].f]
      IN /\ verdict' = Pick(<<CloseCheck(made, links, descr, readers, upl)>> \o blocked
-                           \o <<IF linkbad THEN "C16:link-count-wrong" ELSE "">>)
+                           \o <<IF linkbad THEN "C16:link-count-wrong" ELSE "",
+                                 ContentReason(made, pend, want, amb)>>)
         /\ nonconf' = IF (\E i \in 1 .. Len(hs) : HookDiffers(hs[i]))
                          \/ {ps[i].id : i \in 1 .. Len(ps)} # DOMAIN pend
                       THEN nonconf + 1 ELSE nonconf
   /\ snap' = SnapOf(made, links, descr, readers, upl)
-  /\ UNCHANGED <<links, descr, readers, content, pend, upl, expired, made>>
+  /\ UNCHANGED <<links, descr, readers, content, pend, upl, expired, made, want, amb>>
 
 TNext == TReset \/ TCall \/ TRet \/ TPutBegin \/ TPutHalf \/ TPutEnd \/ TPutClosed
          \/ TPoolData \/ TPoolClose \/ TPoolUseAfterClose
